@@ -4,11 +4,18 @@ package main
 
 import (
 	"fmt"
+	"math"
 	"os"
 	"path/filepath"
 	"strconv"
 	"strings"
 )
+
+// genExactCostTies: when set, a generated dataset may carry costs that are EXACT ties of the cost variables' rounding
+// (x.xx5).  crem's RoundFloat(cost, 2) decides those by the last bit of a float product (5.005 becomes 5.01, 1.005
+// becomes 1.00), which exact arithmetic cannot follow: only suites whose driver answers BOUNDARY there (catchment-walk)
+// switch it on; they keep evaluating the direct clauses on such data.
+var genExactCostTies = false
 
 // genDataset writes a generated catchment dataset (meta file + three tables) into dir and returns
 // the meta file's path.  It is loaded by crem's real CSV loader.
@@ -50,6 +57,56 @@ func genDataset(r *Rng, dir string, tag string) string {
 		}
 		return v
 	}
+	// costs: crem rounds every action's cost to cents (RoundFloat(cost, 2)) before it adds it.  Whole dollars and cents
+	// (the rounding is the identity), 3-6 decimals (it is not), values a 1e-6 .. 1e-4 either side of a tie x.xx5
+	// (decidable at float precision), with genExactCostTies the tie itself; negative in adverse data sets.
+	ties := genExactCostTies && r.Chance(0.12)
+	if ties {
+		tag += "tie_"
+	}
+	cost := func(scale float64) float64 {
+		x := r.Float() * scale
+		if r.Chance(0.15) {
+			x = r.Float() * 100 // small amounts: the fraction is a visible share of the value
+		}
+		var v float64
+		k := r.Intn(20)
+		switch {
+		case k < 5:
+			v = round(x, 0)
+		case k < 9:
+			v = round(x, 2)
+		case k < 13:
+			v = round(x, 3+r.Intn(4))
+		case k < 18:
+			off := []float64{1e-6, 3e-6, 1e-5, 1e-4}[r.Intn(4)]
+			if r.Bool() {
+				off = -off
+			}
+			v = round(round(x, 2)+0.005+off, 6)
+		default:
+			if ties {
+				v = round(round(x, 2)+0.005, 3)
+			} else {
+				v = round(x, 4)
+			}
+		}
+		// a 3-decimal number ends in 5 one time in ten: an exact tie only where it is wanted
+		if y := math.Abs(v) * 100; math.Abs(y-math.Floor(y)-0.5) < 1e-6 && !(ties && k >= 18) {
+			v = round(v+0.0011, 6)
+		}
+		if adverse && r.Chance(0.15) {
+			v = -v
+		}
+		return v
+	}
+
+	gullyOpp := func() float64 { // a third of the gully rows cost no opportunity
+		if m := r.Intn(3); m > 0 {
+			return cost(9000 * float64(m))
+		}
+		return 0
+	}
 
 	var sub, gul, act strings.Builder
 	sub.WriteString("Subcatchment,DownstreamId,ChannelLength,ChannelSlope,BankfullFlow,ChannelWidth,ChannelDepth,FloodplainWidth,ProportionOfRiparianVegetation,SubcatchmentArea,RiparianBufferArea,HillslopeArea\n")
@@ -76,7 +133,7 @@ func genDataset(r *Rng, dir string, tag string) string {
 		if ng > 0 || r.Chance(0.15) { // a Gully action row (sometimes without any gully: no action is built)
 			pn := round(r.Float()*2, 6)
 			dn := round(r.Float()*0.01, 9)
-			fmt.Fprintf(&act, "%d,Gully,%s,%s,%s,%s,0,0,0,0,%s,%s,0,0,0\n", p, f(opp(float64(r.Intn(3))*round(r.Float()*9000, 0))), f(round(r.Float()*200000, pickInt(r, 0, 0, 2))),
+			fmt.Fprintf(&act, "%d,Gully,%s,%s,%s,%s,0,0,0,0,%s,%s,0,0,0\n", p, f(opp(gullyOpp())), f(cost(200000)),
 				f(pn), f(worse(pn, 6, r.Float())), f(dn), f(worse(dn, 9, r.Float())))
 		}
 		if r.Chance(0.8) { // Hillslope row; zero erosion rows build no action but still seed nitrogen attributes
@@ -86,17 +143,17 @@ func genDataset(r *Rng, dir string, tag string) string {
 				pn = round(r.Float()*10, 6)
 			}
 			dn := round(r.Float()*5, 6)
-			fmt.Fprintf(&act, "%d,Hillslope,%s,%s,%s,%s,%s,%s,0,0,%s,%s,0,0,0\n", p, f(opp(round(r.Float()*90000, 0))), f(round(r.Float()*4e6, pickInt(r, 0, 0, 2))),
+			fmt.Fprintf(&act, "%d,Hillslope,%s,%s,%s,%s,%s,%s,0,0,%s,%s,0,0,0\n", p, f(opp(cost(90000))), f(cost(4e6)),
 				f(pn), f(worse(pn, 6, r.Float())), f(ero), f(worse(ero, 4, r.Float()*0.2)), f(dn), f(worse(dn, 6, 0.8+0.2*r.Float())))
 		}
 		if r.Chance(0.85) { // Riparian row (an action exists only when veg < target)
 			fo := round(0.1+r.Float()*0.1, 6)
 			dn := round(r.Float()*1e-6, 12)
-			fmt.Fprintf(&act, "%d,Riparian,%s,%s,0,0,0,0,%s,%s,%s,%s,%s,0,0\n", p, f(round(r.Float()*7000, 0)), f(round(r.Float()*900000, pickInt(r, 0, 0, 2))),
+			fmt.Fprintf(&act, "%d,Riparian,%s,%s,0,0,0,0,%s,%s,%s,%s,%s,0,0\n", p, f(opp(cost(7000))), f(cost(900000)),
 				f(fo), f(round(0.1+r.Float()*0.15, 6)), f(dn), f(worse(dn, 12, r.Float())), f(pick(0.632175983, 0.5, 0.9, 0)))
 		}
 		if r.Chance(0.4) { // Wetland row
-			fmt.Fprintf(&act, "%d,Wetland,%s,%s,0,0,0,0,0,0,0,0,%s,%s,%s\n", p, f(round(r.Float()*20000, 0)), f(round(r.Float()*2.5e6, pickInt(r, 0, 0, 2))),
+			fmt.Fprintf(&act, "%d,Wetland,%s,%s,0,0,0,0,0,0,0,0,%s,%s,%s\n", p, f(opp(cost(20000))), f(cost(2.5e6)),
 				f(pick(0.99, 0.98, 0.5, 0)), f(pick(1, 0.9, 0.3)), f(pick(1, 0.95, 0.4)))
 		}
 	}
